@@ -184,6 +184,35 @@ def rule_own_registers(ctx: Ctx) -> None:
         raise AnalysisError("own.registers: no register write found")
 
 
+def rule_register_depth_paired(ctx: Ctx) -> None:
+    """own.registers (paired growth): CircuitDAG keeps one depth entry per register; a method of the class that makes the register list of a
+    type grow (`self._registers[t].append(..)` or `self._registers.add_register(..)`) also appends to `self._register_depth[t]` — otherwise
+    the depth queries silently omit the new register."""
+    repo = ctx.repo
+    m = repo.module(DAG)
+    ci = repo.cls("CircuitDAG", DAG)
+    n = 0
+    for name, fn in ci.methods().items():
+        grows = [c for c in calls_in(fn) if isinstance(c.func, ast.Attribute) and (
+            (c.func.attr == "append" and isinstance(c.func.value, ast.Subscript) and norm(c.func.value.value) == "self._registers")
+            or (c.func.attr in ("add_register", "add_quantum_register", "add_classical_register") and norm(c.func.value) == "self._registers"))]
+        if not grows:
+            continue
+        n += 1
+        ctx.touch(m, fn)
+        depth = [c for c in calls_in(fn) if isinstance(c.func, ast.Attribute) and c.func.attr == "append" and isinstance(c.func.value, ast.Subscript)
+                 and norm(c.func.value.value) == "self._register_depth"]
+        if depth:
+            ctx.ok("own.registers", m, grows[0], what=f"CircuitDAG.{name}: register list and depth table grow together")
+        else:
+            ctx.fail("own.registers", m, grows[0],
+                     f"CircuitDAG.{name} makes the register list grow (`{short(grows[0])}`) without appending to self._register_depth: the depth table "
+                     f"stays one entry short, so register_depth / calculate_reg_depth / min_reg_depth_index omit a register the circuit has",
+                     func=f"CircuitDAG.{name}", construct=f"CircuitDAG.{name}: registers grow without their depth entry")
+    if n == 0:
+        raise AnalysisError("own.registers: no register-growing method found in CircuitDAG")
+
+
 def rule_edge_keys(ctx: Ctx) -> None:
     repo = ctx.repo
     m = repo.module(DAG)
@@ -297,6 +326,7 @@ def run(ctx: Ctx) -> None:
     rule_own_dag(ctx)
     rule_nodekeys(ctx)
     rule_own_registers(ctx)
+    rule_register_depth_paired(ctx)
     rule_edge_keys(ctx)
     rule_order_compile(ctx)
     from ..rules import loops
@@ -307,6 +337,7 @@ def run(ctx: Ctx) -> None:
 
 
 KNOCKOUTS = [
+    Knockout("depth-entry-dropped", DAG, sub_once("            self._register_depth[reg_type].append(0)\n", ""), "own.registers", "without their depth entry"),
     Knockout("export-node-order", "graphiq/circuit/circuit_dag.py", sub_once("        for op in self.sequence():\n            if isinstance(op, ops.InputOutputOperationBase):", "        for op in [self.dag.nodes[k]['op'] for k in self.dag.nodes]:\n            if isinstance(op, ops.InputOutputOperationBase):"), "order.topological", "node-creation order"),
 
     Knockout("reach-partial-graph", DAG, sub_once("        ancestors = nx.ancestors(self.dag, first_edge[0])", "        ancestors = nx.ancestors(self.dag.subgraph([n for n in self.dag if not str(n).startswith('c')]), first_edge[0])"), "reach.whole-dag", "partial graph"),
